@@ -893,7 +893,7 @@ class XPathToken(Token[ta.XPathTokenType]):
                 return str(obj).upper()
 
             value = str(obj)
-            if '.' in value:
+            if '.' in value and 'e' not in value:
                 value = value.rstrip('0').rstrip('.')
             if '+' in value:
                 value = value.replace('+', '')
